@@ -412,6 +412,51 @@ def untouched_by_gen_entropy(crate, g, genkey):
     return [i for i, (a, b) in enumerate(zip(v.fields, post.fields)) if same_value(a, b)]
 
 
+def run_clone_from(crate, g, genkey, keep, iD, kcf, k32, k64, kfb, pf_dst, pf_src, on_dst):
+    """dst and src are two generators (each normalised by a next_u64, then driven by its prefix); after
+    dst.clone_from(&src) every call on dst must begin with a fresh collection"""
+    ev = crate.evaluator()
+    collected = []
+
+    def gen(ev_, st_, ctx):
+        r = ctx.args[0]
+        before = ev_.load(st_, r)
+        ret = P.opaque_call(ev_, st_, ctx, "no-inline")
+        after = ev_.load(st_, r)
+        fs = list(after.fields)
+        for i in keep:
+            fs[i] = before.fields[i]
+        fs[iD] = ret
+        ev_.store(st_, r, Struct(fs))
+        collected.append(ret)
+        return ret
+    ev.overrides[genkey] = gen
+    st = State()
+    refs = []
+    for nm, pf in (("dst", pf_dst), ("src", pf_src)):
+        leaves = []
+        v = ev.symbolic(g.tyid, nm, leaves)
+        oid = st.alloc(v, nm)
+        r = Ref(oid, (), None, True)
+        ev.call_body(st, k64, [r])
+        for name, n in pf:
+            ev.call_body(st, k32, [r])
+        refs.append(r)
+    ev.call_body(st, kcf, [refs[0], Ref(refs[1].obj, ())])
+    msgs = []
+    for name, n in on_dst:
+        c0 = len(collected)
+        if name == "fill_bytes":
+            doid = st.alloc(ArrV(n, 8, None, None, {i: T.sym("dest[%d]" % i, 8) for i in range(n)}), "dest")
+            ev.call_body(st, kfb, [refs[0], Ref(doid, (), (0, n), True)])
+        else:
+            ev.call_body(st, k32 if name == "next_u32" else k64, [refs[0]])
+        if len(collected) == c0:
+            msgs.append("after clone_from, %s on the destination performs no collection (it hands out a half that was pending)" % name)
+        break
+    return msgs
+
+
 def sequences(chk, tier, crate, g, iD):
     """R9: every sequence of output calls after a normalising next_u64 is compared with the property's model:
          next_u32 with no half pending: one collection G, returns low(G), high(G) becomes pending
@@ -560,6 +605,22 @@ def sequences(chk, tier, crate, g, iD):
         if msgs:
             bad.append((pf, oc, msgs[0]))
     # one obligation per distinct failure message shape (shortest sequence first), one summary obligation otherwise
+    # an overridden clone_from is a way to make a clone as well: whatever the destination held, it must start afresh
+    kcf = None
+    for im_ in crate.facts["impls"]:
+        if im_.get("trait") == "core::clone::Clone" and im_.get("self_adt") == g.path and "clone_from" in im_["methods"]:
+            kcf = im_["methods"]["clone_from"]
+    if kcf is not None:
+        for pf_dst in ((), (("next_u32", None),)):
+            for pf_src in ((), (("next_u32", None),)):
+                for oc in [(o,) for o in ops[:4]]:
+                    nseq += 1
+                    try:
+                        msgs = run_clone_from(crate, g, genkey, keep, iD, kcf, k32, k64, kfb, pf_dst, pf_src, oc)
+                    except (Unsupported, SymbolicLoop, Diverged) as e:
+                        msgs = ["not established: %s" % e]
+                    if msgs:
+                        bad.append((pf_dst + (("clone_from", None),), oc, msgs[0]))
     bad.sort(key=lambda x: (len(x[0]) + (len(x[1]) if x[1] else 0)))
     seen = set()
     for pf, oc, m in bad:
